@@ -13,7 +13,7 @@ one-line `if .. { return .. }`, closure bodies): listed as "partially executed l
 
 Not part of any registered check; measurement only.
 """
-import sys, os, re, json, collections, datetime
+import sys, os, re, json, collections, datetime, subprocess
 
 ROOT = os.path.dirname(os.path.dirname(os.path.abspath(__file__)))
 REPO = "/repo"
@@ -41,6 +41,61 @@ def parse_where(w):
         a, _, b = r.partition("-")
         out.append((int(a), int(b or a)))
     return path, out
+
+
+_hunks_cache = {}
+
+
+def anchor_base():
+    """commit the anchors' line numbers refer to: the pinned snapshot = root commit of /repo (override: ANCHOR_BASE)."""
+    b = os.environ.get("ANCHOR_BASE")
+    if b:
+        return b
+    try:
+        return subprocess.run(["git", "-C", REPO, "rev-list", "--max-parents=0", "HEAD"], capture_output=True, text=True,
+                              check=True).stdout.split()[0]
+    except Exception:
+        return None
+
+
+def hunks(path):
+    """[(old_start, old_len, new_start, new_len)] of `git diff -U0 <base> -- path` (base snapshot vs working tree)."""
+    if path in _hunks_cache:
+        return _hunks_cache[path]
+    hs = []
+    base = anchor_base()
+    if base:
+        try:
+            out = subprocess.run(["git", "-C", REPO, "diff", "-U0", base, "--", path], capture_output=True, text=True).stdout
+            for m in re.finditer(r"^@@ -(\d+)(?:,(\d+))? \+(\d+)(?:,(\d+))? @@", out, re.M):
+                os_, ol, ns, nl = int(m.group(1)), m.group(2), int(m.group(3)), m.group(4)
+                hs.append((os_, 1 if ol is None else int(ol), ns, 1 if nl is None else int(nl)))
+        except Exception:
+            pass
+    _hunks_cache[path] = hs
+    return hs
+
+
+def remap(path, a, b):
+    """map the line range a-b of the pinned snapshot to the working tree (the fixes of DESIGN §11 shifted the code)."""
+    def one(x, end):
+        delta = 0
+        for (os_, ol, ns, nl) in hunks(path):
+            if ol == 0:                      # pure insertion after old line os_
+                if x > os_:
+                    delta = (ns + nl - 1) - os_
+                continue
+            if x < os_:
+                break
+            if x <= os_ + ol - 1:            # inside a replaced block: snap to the new block
+                if nl == 0:
+                    return ns + (0 if end else 1)
+                return (ns + nl - 1) if end else ns
+            delta = (ns + nl - 1) - (os_ + ol - 1) if nl else ns - (os_ + ol - 1)
+        return x + delta
+    na, nb = one(a, False), one(b, True)
+    # an insertion directly inside the range start..end is covered automatically (end shifts, start does not)
+    return na, max(na, nb)
 
 
 def parse_lcov(path):
@@ -190,7 +245,8 @@ def report(pid, tier, lcov_path, json_path, meta):
     for m in anchors["mechanism"]:
         path, rngs = parse_where(m["where"])
         for (a, b) in rngs:
-            mech[path].append((a, b, m["name"]))
+            na, nb = remap(path, a, b)
+            mech[path].append((na, nb, m["name"] + (f"  [anchor says {a}-{b}; shifted by the fixes since the pinned snapshot]" if (na, nb) != (a, b) else "")))
     files = list(anchors["files"])
     for path in mech:
         if path not in files:
@@ -320,6 +376,30 @@ def report(pid, tier, lcov_path, json_path, meta):
     print(f"[{pid}] {tier}: anchored {tot_hit}/{tot_exec} = {pct:.1f}%")
 
 
+HEADER = """# Harness coverage of /repo/src per property
+
+What this measures: which source lines of /repo/src the correspondence harness `harness/src/bin/cNN.rs` executes when it
+is run exactly as `./check CNN --tier T` runs it (`--tier T --seed 1 --shard i/16`, all 16 shards), built with
+`-C instrument-coverage` (nightly toolchain, LLVM source-based coverage; opt-level 2, overflow-checks and debug-assertions
+on as in the normal profile).  Tool: `tools/coverage.sh <Cnn|all> [quick|thorough]` + `tools/coverage_report.py`.
+Per property: `<id>.txt` (quick) / `<id>.thorough.txt`: every executable line of every anchor file that no shard executed,
+grouped by function, `*` = inside the property's `anchors.mechanism[].where`; plus "partially executed lines" = regions
+with count 0 on an executed line (`?` error arms, the implicit else of an `if let`, short-circuited operands).
+Raw data: `lcov/<id>-<tier>.lcov`, `data/<id>-<tier>.json`.
+
+Reading notes
+* Anchor line numbers in properties.jsonl are those of the pinned snapshot (root commit of /repo).  Later fixes shifted the
+  code; every range is mapped through `git diff -U0 <root> -- file` to the working tree and the per-mechanism list of each
+  report says so (e.g. cosets.rs:355-386 -> 386-417, dsets.rs:249-278 -> 253-282).
+* A line counts as executed if any region on it ran in any monomorphisation.  Code that the harness's own *generator* runs
+  (covers built with derived::cover, tables obtained from coset_tables, ...) counts as executed although no Spec of that
+  property looks at it.
+* #[cfg(test)] code is not compiled and does not appear.  Functions never called still appear (count 0), so
+  "FUNCTION NEVER ENTERED" is reliable.  A closing brace with count 0 is the implicit else of an if / if let.
+* Line coverage says nothing about values: 100 % means every statement ran at least once, not that the generator is adequate.
+
+"""
+
 BEGIN, END = "<!-- TABLE BEGIN (generated by tools/coverage_report.py table) -->", "<!-- TABLE END -->"
 
 
@@ -353,7 +433,7 @@ def table():
         else:
             txt = txt.rstrip("\n") + "\n\n" + block + "\n"
     else:
-        txt = "# Harness coverage of /repo/src per property\n\n" + block + "\n"
+        txt = HEADER + block + "\n"
     open(sp, "w").write(txt)
     print("\n".join(lines))
 
